@@ -65,6 +65,8 @@ type caseSpec struct {
 	// SyncBeforeFollow: an oracle evaluation (hence a follower in steady state,
 	// its follow session past the handshake) precedes every step that re-issues FOLLOW
 	SyncBeforeFollow bool `json:"sync_before_follow,omitempty"`
+	// AvoidBoundary: skip the case if the leader's log has a command boundary at offset 524288 when the follower is created
+	AvoidBoundary bool `json:"avoid_boundary,omitempty"`
 	// TailRefollow: after the final check, FOLLOW no one + FOLLOW as the forced reconnect of one more evaluation
 	TailRefollow bool `json:"tail_refollow,omitempty"`
 	// pacing of the replication stream during the tail phases
@@ -359,6 +361,9 @@ type genOpts struct {
 	noStarDigit bool
 	// noPublish: the leader never publishes (no PUBLISH command, no pubstorm step)
 	noPublish bool
+	// noBoundaryAt512K: skip a case at run time when the leader's log has a command
+	// boundary exactly at offset 524288 at the moment the follower is created
+	noBoundaryAt512K bool
 	// noStaleSession: FOLLOW is never re-issued while an older follow session can
 	// still be inside its handshake (SyncBeforeFollow, no tail refollow)
 	noStaleSession bool
@@ -568,6 +573,7 @@ func drawCase(t *rapid.T, o genOpts) caseSpec {
 	cs.FirstSync = o.noResyncFromZero || rapid.IntRange(0, 2).Draw(t, "firstsync") == 0
 	cs.Settle = o.noResyncFromZero
 	cs.SyncBeforeFollow = o.noStaleSession
+	cs.AvoidBoundary = o.noBoundaryAt512K
 
 	kinds := []string{stBurst, stBurst, stBurst, stBurst, stRestart, stCut, stStall, stDown, stShrink, stRefollow, stDetachWr, stSplit, stSlow, stCutMD5}
 	if o.noResyncFromZero {
